@@ -158,6 +158,19 @@ func checkSurvive(w world.World, viaLink, relExtract, dotExtract bool) error {
 	}
 	arena, cleanup := fsx.Scratch("c09-")
 	defer cleanup()
+	// The directories used below held other bundles before (a work directory that is reused):
+	// whatever was learnt about them then must not come back.
+	for _, d := range []string{"b1", "b3", "real/b1"} {
+		dir := filepath.Join(arena, d)
+		os.MkdirAll(dir, 0755)
+		os.WriteFile(filepath.Join(dir, "terraform-sources.json"), []byte(`{"terraform_source_bundle":1,"packages":[{"source":"git::https://example.com/earlier.git","local":"earlier","meta":{}}],"registry":[]}`), 0644)
+		os.Mkdir(filepath.Join(dir, "earlier"), 0755)
+		if _, err := sourcebundle.OpenDir(dir); err != nil {
+			return fmt.Errorf("harness: earlier bundle: %v", err)
+		}
+		fsx.RemoveAll(dir)
+	}
+	os.RemoveAll(filepath.Join(arena, "real"))
 	target1 := filepath.Join(arena, "b1")
 	if viaLink {
 		// <arena>/alias -> real ; the bundle lives at <arena>/alias/b1
